@@ -762,7 +762,7 @@ def inline_new_helpers(tree, modname):
         if isinstance(fn, ast.AsyncFunctionDef) or ".<locals>." in q:
             continue
         nm = fn.name
-        if not nm.startswith("_") or (nm.startswith("__") and nm.endswith("__")) or q in ref:
+        if (nm.startswith("__") and nm.endswith("__")) or q in ref:
             continue
         if not _helper_ok(fn):
             continue
